@@ -191,6 +191,17 @@ func (m *BinaryModel) resolvePacketFields(packet *Packet) {
 				m.resolvePacketFields(of.RefPacket)
 			}
 		}
+		if mf, ok := field.Attr.(*MatchFieldAttribute); ok {
+			for _, pair := range mf.MatchPairs {
+				if _, exists := m.PacketsMap[pair.Value]; !exists {
+					m.AddSyntaxError(&SyntaxError{
+						Line:   pair.Line,
+						Column: pair.Column,
+						Msg:    "Unknown packet type " + pair.Value + " for match key " + pair.Key + " of field " + field.Name,
+					})
+				}
+			}
+		}
 	}
 }
 
